@@ -3,5 +3,6 @@ CONSTANTS
   B3 = {0, 1, 3, 15, 16, 63, 64, 127, 128, 192, 252, 255}
   MaxLen = 3
   Emit = TRUE
-INVARIANTS EncPrefix DecPrefix Canonical RoundTrip SextetsAgree AlphaBijective EmitCase EmitCorruptions
+  CorruptLen = 3
+INVARIANTS EncPrefix DecPrefix Canonical RoundTrip SextetsAgree AlphaBijective TablesAgree EmitCase EmitCorruptions
 CHECK_DEADLOCK FALSE
